@@ -714,6 +714,37 @@ func (c *checker) runFeature(p profile, l []item, sorted bool) {
 		probes = append(probes, "other-type")
 	}
 	targets := []finder{direct}
+	names := []string{"CollectionFeature", "world.FindCollectionByID(..)"}
+	// the same content held by a feature that previously held it with the
+	// opposite sortedness: merged directly, and replaced in a world by AddFeature
+	mkOther := func() *ingest.CollectionFeature {
+		f := &ingest.CollectionFeature{CollectionID: b6.CollectionID{Namespace: "diagonal.works/test", Value: 1}}
+		for _, it := range l {
+			f.Keys = append(f.Keys, it.k)
+			f.Values = append(f.Values, it.v)
+		}
+		if !sorted {
+			f.Sort()
+		}
+		return f
+	}
+	var merged *ingest.CollectionFeature
+	var replaced b6.CollectionFeature
+	cl2, msg2 := kit.Catch(func() {
+		merged = mkOther()
+		merged.MergeFrom(mk())
+		w2 := ingest.NewBasicMutableWorld()
+		if err := w2.AddFeature(mkOther()); err != nil {
+			panic("harness: AddFeature: " + err.Error())
+		}
+		if err := w2.AddFeature(mk()); err != nil {
+			panic("harness: AddFeature (replace): " + err.Error())
+		}
+		replaced = b6.FindCollectionByID(direct.CollectionID, w2)
+	})
+	if cl2 != "" {
+		c.violate("collection-feature:replace:"+cl2, "replacing collection feature %s: %s", c.input, msg2)
+	}
 	if viaWorld != nil {
 		targets = append(targets, viaWorld)
 		// iterating the feature yields the items, and Count agrees
@@ -725,8 +756,16 @@ func (c *checker) runFeature(p profile, l []item, sorted bool) {
 			c.violate("collection-feature:count-mismatch", "world.FindCollectionByID(..) of %s: Count() = %d, iteration yields %d", c.input, n, len(got))
 		}
 	}
+	if merged != nil {
+		targets = append(targets, merged)
+		names = append(names, "feature-of-opposite-sortedness.MergeFrom(..)")
+	}
+	if replaced != nil {
+		targets = append(targets, replaced)
+		names = append(names, "world after replacing a feature of opposite sortedness")
+	}
 	for ti, target := range targets {
-		tn := []string{"CollectionFeature", "world.FindCollectionByID(..)"}[ti]
+		tn := names[ti]
 		for _, key := range probes {
 			c.r.Evals += 2
 			var wantAll []interface{}
